@@ -232,7 +232,7 @@ func storedOutputRoot(l1 *sim.L1, bridge, index uint64) []byte {
 func checkC03(run *mon.Run, rng *mon.Rand, thorough bool) {
 	run.Rule = "for every tree size 1..N (N=17 quick, 40 thorough), both tree shapes and every leaf position: the valid claim (positive control, must be accepted) and every single-field perturbation of it (each bit position of version/roots/proof elements, sequence/amount arithmetic, other bridge id, other output indices incl. other tree / not-yet-final / missing, swapped and concatenated addresses, truncated/extended/swapped/foreign proofs, inner nodes as siblings) plus random multi-field mixes, each delivered on a copy-on-write branch in three oracle states (final, not yet final, already paid). Soundness oracle: an accepted claim must re-verify with the independent implementation against the output stored at that index. Distinct non-trivial = (tree size, position, perturbation kind, state) rejected while the control was accepted"
 	run.Assumptions = []string{"hash collisions are not searched for", "'no effect' of a rejected message is baseapp's rollback and is not asserted"}
-	for _, c := range []string{"C03.control_accepted", "C03.accepted_claim_is_committed", "C03.perturbed_claim_rejected", "C03.not_final_rejected", "C03.paid_rejected"} {
+	for _, c := range []string{"C03.control_accepted", "C03.accepted_claim_is_committed", "C03.perturbed_claim_rejected", "C03.rejected_claim_leaves_no_trace", "C03.not_final_rejected", "C03.paid_rejected"} {
 		run.Declare(c, 20)
 	}
 	maxN := pick(thorough, 17, 40)
@@ -305,9 +305,14 @@ func checkC03(run *mon.Run, rng *mon.Rand, thorough bool) {
 					m.Sender = sub.String()
 					b2 := env.L1.Branch()
 					exists, rootOK, proofOK := refVerify(b2, m)
-					r := b2.Deliver(m)
+					r, left := b2.DeliverInspect(m)
 					run.Evaluations++
 					tr := []string{fmt.Sprintf("tree size %d shape %d position %d perturbation %q -> %s %s (ref: exists=%v root=%v proof=%v)", n, shape, pos, p.kind, r.Class, r.ErrString(), exists, rootOK, proofOK)}
+					if r.Class != sim.OK && !(exists && rootOK && proofOK) {
+						// "fails with no effect": a claim that does not verify is refused before the handler writes anything —
+						// looked at in the handler's own branch, before the harness (as a transaction would) throws it away
+						run.Check("C03.rejected_claim_leaves_no_trace", len(left) == 0, "c03.rejected_claim_wrote_state", append(tr, left...), "a claim that does not verify (%s) was rejected after its handler had written %d store entries (first: %s)", p.kind, len(left), firstOf(left))
+					}
 					if r.Class == sim.OK {
 						run.Check("C03.accepted_claim_is_committed", exists && rootOK && proofOK, "c03.forged_claim_accepted", tr, "perturbed claim (%s) accepted although it does not verify against the stored output", p.kind)
 						kinds["accepted:"+p.kind]++
